@@ -369,14 +369,24 @@ def _eval_measurement(ctx, c, m, with_altitude, lever, has_rates):
     selfo.attrs['R'] = SArray((3, 3), {(i, j): (A.sym('var%d' % i) if i == j else A.const(0))
                                        for i in range(3) for j in range(3)})
     if 'imu_to_antenna_b' in _all_attrs(c):
-        selfo.attrs['imu_to_antenna_b'] = (
-            SArray((3,), {(i,): A.sym('l%d' % i) for i in range(3)}) if lever else None)
+        selfo.attrs['imu_to_antenna_b'] = _lever_value(A, lever)
     try:
         ret = ev.call_function(m, [A.sym('time'), pva, em], {}, selfo)
     except BroadcastError as e:
         e.where = getattr(ev, 'last_stmt', None)
         raise
     return ev, ret, em
+
+
+def _lever_value(A, lever):
+    """None (no lever arm), a generic lever arm (l0, l1, l2), or - lever == 'partial' - one with
+    an exactly zero component (l0, 0, l2): an antenna straight above / ahead of the IMU is
+    ordinary input, and a guard that asks `np.all(lever)` instead of `lever is not None` treats
+    it as absent on one side only (round-9 seed C06-lever-arm-all-components)"""
+    if not lever:
+        return None
+    return SArray((3,), {(i,): (A.const(0) if lever == 'partial' and i == 1 else A.sym('l%d' % i))
+                         for i in range(3)})
 
 
 def _all_attrs(c):
@@ -399,7 +409,7 @@ def meas_shape(ctx):
     for c, m in _subclasses(ctx):
         has_lever = 'imu_to_antenna_b' in _all_attrs(c)
         for wa in (True, False):
-            for lever in ((True, False) if has_lever else (False,)):
+            for lever in ((True, 'partial', False) if has_lever else (False,)):
                 for rates in ((True, False) if has_lever else (False,)):
                     tag = '%s alt=%s lever=%s rates=%s' % (c.name, wa, lever, rates)
                     try:
@@ -472,7 +482,7 @@ def _expected_residual(ctx, ev, c, lever, rates):
     h = ev.hooks
     C = h.C
     vec = lambda names: SArray((len(names),), {(i,): A.sym(n) for i, n in enumerate(names)})
-    l = vec(['l0', 'l1', 'l2'])
+    l = _lever_value(A, lever) if lever else vec(['l0', 'l1', 'l2'])
     ev2 = SymEval(repo, A)
     if c.name == 'Position':
         cols = repo.const('util.LLA_COLS')
@@ -625,8 +635,8 @@ def meas_jacobian(ctx):
     for c, m in _subclasses(ctx):
         has_lever = 'imu_to_antenna_b' in _all_attrs(c)
         for wa in (True, False):
-            for lever, rates in (((True, True), (True, False), (False, False)) if has_lever
-                                 else ((False, False),)):
+            for lever, rates in (((True, True), (True, False), ('partial', True),
+                                  (False, False)) if has_lever else ((False, False),)):
                 tag = '%s alt=%s lever=%s rates=%s' % (c.name, wa, lever, rates)
                 h = _JH()
                 h.rph_cols = repo.const('util.RPH_COLS')
@@ -645,8 +655,7 @@ def meas_jacobian(ctx):
                 selfo.attrs['R'] = SArray((3, 3), {(i, j): (A.sym('var%d' % i) if i == j else A.const(0))
                                                    for i in range(3) for j in range(3)})
                 if has_lever:
-                    selfo.attrs['imu_to_antenna_b'] = (
-                        SArray((3,), {(i,): A.sym('l%d' % i) for i in range(3)}) if lever else None)
+                    selfo.attrs['imu_to_antenna_b'] = _lever_value(A, lever)
                 try:
                     z0, H, R = ev.call_function(m, [A.sym('time'), pva, em], {}, selfo)
                     xs = [A.sym('x%d' % i) for i in range(ns)]
